@@ -190,7 +190,9 @@ func runCfg(run *rep.Run, c cfg, id int) {
 			if L&(1<<i) != 0 {
 				names = append(names, M, "Tagged:Latest")
 			} else {
-				names = append(names, M2) // a second model, listed by exactly the other endpoints
+				// a second model, listed by exactly the other endpoints, and a model whose name
+				// makes Olla infer the vision capability (requests with an image part follow)
+				names = append(names, M2, "llava:13b")
 			}
 			b.SetModels(names)
 		}
@@ -211,7 +213,7 @@ func runCfg(run *rep.Run, c cfg, id int) {
 			type variant struct{ route, spelling, model string }
 			vs := []variant{{"proxy", "exact", M}}
 			// rotate the other variants over the cases to keep the run short
-			others := []variant{{"proxy", "other-case", "MM-7B"}, {"provider", "exact", M}, {"anthropic", "exact", M}, {"proxy", "lower-of-mixed-case-listing", "tagged:latest"}, {"anthropic", "other-case", "Mm-7b"}, {"provider", "other-case", "MM-7b"}, {"proxy", "exact+body>1MiB", M}, {"provider-unknown-path", "exact", M}, {"anthropic", "exact+body>1MiB", M}, {"proxy-unknown-path", "exact", M}, {"proxy", "exact+chunked", M}, {"provider", "exact+chunked", M}}
+			others := []variant{{"proxy", "other-case", "MM-7B"}, {"provider", "exact", M}, {"anthropic", "exact", M}, {"proxy", "lower-of-mixed-case-listing", "tagged:latest"}, {"anthropic", "other-case", "Mm-7b"}, {"provider", "other-case", "MM-7b"}, {"proxy", "exact+body>1MiB", M}, {"provider-unknown-path", "exact", M}, {"anthropic", "exact+body>1MiB", M}, {"proxy-unknown-path", "exact", M}, {"proxy", "exact+chunked", M}, {"provider", "exact+chunked", M}, {"proxy", "exact+image-part", M}, {"provider", "exact+image-part", M}}
 			if rep.Thorough() || rep.Mode() != "race" {
 				vs = append(vs, others...)
 			} else {
@@ -321,6 +323,10 @@ func oneCase(run *rep.Run, c cfg, st stack, hc *http.Client, backs []*backend.St
 		} else {
 			body = fmt.Sprintf(`{"model":%q,"messages":[{"role":"user","content":"%s %s"}]}`, model, nonce, strings.Repeat("pad ", 270000))
 		}
+	}
+	if strings.Contains(spelling, "image-part") {
+		// the request still names M: what it needs besides must not hide the endpoints that list M
+		body = fmt.Sprintf(`{"model":%q,"messages":[{"role":"user","content":[{"type":"text","text":"%s"},{"type":"image_url","image_url":{"url":"data:image/png;base64,iVBORw0KGgo="}}]}]}`, model, nonce)
 	}
 	for _, b := range backs {
 		b.ResetRecords()
